@@ -2,6 +2,7 @@ package vm
 
 var zzRegistry = map[string]func(int){
 	"ZZ_Smoke":    ZZ_Smoke,
+	"ZZ_C01Save":  ZZ_C01Save,
 	"ZZ_C01":      ZZ_C01,
 	"ZZ_C03":      ZZ_C03,
 	"ZZ_C03Alloc": ZZ_C03Alloc,
